@@ -6,6 +6,7 @@ import Libvna.Driver.VDataDrv
 import Libvna.Model.ConvN
 import Libvna.Driver.NumDrv
 import Libvna.Driver.FFDrv
+import Libvna.Model.PValue
 import Libvna.Driver.PropDrv
 import Libvna.Driver.CalDrv
 open Libvna
@@ -75,6 +76,12 @@ def stepNum (args : List String) : String :=
       let (a, ri, d) := Libvna.LA.lu CF.abs v.toArray n
       "ok " ++ cfToHex d ++ " P" ++ ri.foldl (fun acc i => acc ++ " " ++ toString i) "" ++ " A" ++
         (if n == 0 then "" else " " ++ joinHex a.toList)
+    | _, _ => "bad-args"
+  | ["pvalue", ns, xh] =>
+    match ns.toNat?, floatOfHex? xh with
+    | some n, some x2 =>
+      if n % 2 != 0 ∨ n < 2 then "unmodelled" else
+      "ok " ++ floatToHex (Libvna.PV.pEven Float.exp (fun a b => a <= b) (fun i => i.toFloat) (n / 2) x2)
     | _, _ => "bad-args"
   | "rfi" :: rest => Libvna.Drv.stepRfi rest
   | "spline" :: rest => Libvna.Drv.stepSpline rest
